@@ -330,11 +330,15 @@ def master_private(ctl):
         name = fr.f_code.co_name
         if name == '_enqueue':
             loc = fr.f_locals
+            if not all(k in loc for k in ('tasks', 'task', 'tasks_left', 'n_tasks')):
+                return None         # the loop variables have other names: no state caching (plain DFS within the budget)
             task = loc.get('task')
             out.append(('enq', tuple(getattr(t, 'idx', 0) for t in loc.get('tasks', ())), getattr(task, 'idx', 0),
                         tuple(getattr(t, 'idx', 0) for t in loc.get('tasks_left', ())), loc.get('n_tasks')))
         elif name in ('_process_tasks', 'execute_tasks'):
             loc = fr.f_locals
+            if name == '_process_tasks' and not all(k in loc for k in ('tasks_left', 'n_tasks_left')):
+                return None
             out.append((name, tuple(getattr(t, 'idx', 0) for t in (loc.get('tasks_left') or ())), loc.get('n_tasks_left')))
         fr = fr.f_back
     return tuple(out) if out else None
